@@ -329,9 +329,11 @@ impl Sender {
         if data.is_empty() {
             match self.credits.try_request(1)? {
                 Some(mut credits) => {
-                    credits.take(1);
                     let msg = PortEvt::SendData { remote_port: self.remote_port, data, first: true, last: true };
                     self.tx.try_send(msg)?;
+                    // Take the credit only once the frame is queued, so that it
+                    // stays with the port when the queue is full.
+                    credits.take(1);
                     Ok(())
                 }
                 None => Err(TrySendError::Full),
@@ -343,8 +345,7 @@ impl Sender {
                     while !data.is_empty() {
                         let at = data.len().min(self.chunk_size);
                         let chunk = data.split_to(at);
-
-                        credits.take(chunk.len() as u32);
+                        let chunk_len = chunk.len() as u32;
 
                         let msg = PortEvt::SendData {
                             remote_port: self.remote_port,
@@ -353,6 +354,10 @@ impl Sender {
                             last: data.is_empty(),
                         };
                         self.tx.try_send(msg)?;
+
+                        // Take the credits only once the frame is queued, so that the
+                        // credits of a chunk that cannot be queued stay with the port.
+                        credits.take(chunk_len);
 
                         first = false;
                     }
